@@ -73,6 +73,11 @@ def check(case):
                 res.classes = cls + ['nonconverged']
                 return res
             except Exception as e:
+                if isinstance(e, ValueError) and 'infs or NaNs' in str(e):
+                    # a diverging Newton iteration handed non-finite values to the LU solve: not a converged model
+                    res.discard = 'nonfinite'
+                    res.classes = cls + ['nonfinite']
+                    return res
                 sig = core.repo_frame_signature(e, 'run-' + label)
                 if sig is None:
                     raise
@@ -120,7 +125,8 @@ def check(case):
         for an, val in ins.items():
             exp = ref.input_val(an, u_ref, ref.x0)
             m = ref.inmap[an]
-            t = 1e-8 * max(1.0, cond) * (np.abs(exp) + abs(m.get('o', 0.0)) + 1.0)
+            # an input carries the error allowed for its source (utol) multiplied by the unit factor of the connection
+            t = 1e-8 * max(1.0, cond) * (np.abs(exp) + abs(m.get('o', 0.0)) + 1.0) + 10.0 * abs(m.get('f', 1.0)) * utol
             if val.shape != exp.shape or np.any(np.abs(val - exp) > t):
                 res.fail(tag(known, f"inputs:{label}-differ-from-reference"), f"{label}/{mode} {an}: {val.tolist()} vs {exp.tolist()}")
                 break
